@@ -111,13 +111,13 @@ def handle (line : String) : String :=
         rdhFields (decodeRdh bs) ++ " " ++ (if encodeRdh (decodeRdh bs) == bs then "rt=ok" else "rt=BAD")
       else "bad-op"
     | none => "bad-op"
-  | ["rdhsane", eid, its, h] =>
-    match parseHex h with
-    | some bs =>
+  | ["rdhsane", its, first, h] =>
+    match parseHex first, parseHex h with
+    | some fb, some bs =>
       let r := decodeRdh bs
-      let e := (optNat eid).getD r.headerId
+      let e := (decodeRdh fb).headerId
       if rdhSanityBad e (if its == "1" then some 32 else none) r then "bad" else "ok"
-    | none => "bad-op"
+    | _, _ => "bad-op"
   | "running" :: hs =>
     let rs := hs.filterMap parseHex
     let (_, out) := rs.foldl (fun (acc : RunSt × List String) bs =>
